@@ -306,6 +306,8 @@ fn pool_cfg(v: &Value) -> PoolConfig {
     if let Some(m) = v["max"].as_u64() { c = c.max_size(m as u32); }
     if let Some(m) = v["min_idle"].as_u64() { c = c.min_idle(m as u32); }
     if let Some(m) = v["idle_ms"].as_u64() { c = c.idle_timeout(Duration::from_millis(m)); }
+    // "never": the largest duration there is (idle connections are kept for ever)
+    if v["idle"] == "never" { c = c.idle_timeout(Duration::MAX); }
     c
 }
 
